@@ -169,6 +169,18 @@ def gen_lengths(rng, b, small):
 HOSTILE_ROOT_NAMES = [b"r %d" , b"r'%d", b"r\xc3\xa9'x%d", b"r$%d \xe6\x97\xa5", b"r\t%d\xc4\x99", b"r\"%d\"", b"r\\%d", b"r%d\xc5\xbc\xc3\xb3'\xc5\x82w", b"-r%d"]
 
 
+RELATED_ROOT_NAMES = ["r1", "r1x", "r1-old", "r1.d", "r12", "r1 2"]
+
+
+def root_names(rng, nroots):
+    """Names of the root directories: r1..rN, or (a third of the multi-root worlds) siblings whose names
+    are string prefixes of one another, in random order - 'is under root' must be decided per path
+    component, not per character."""
+    if nroots >= 2 and rng.random() < 0.35:
+        return rng.sample(RELATED_ROOT_NAMES, nroots)
+    return ["r%d" % (i + 1) for i in range(nroots)]
+
+
 def gen_world(rng, cfg, *, nroots=1, hostile=True, links=True, max_files=24, families=None, min_len=0, hostile_roots=False):
     """World with `families` content families; every family has exact copies and near copies that
     differ in one byte at a stage boundary offset."""
@@ -177,7 +189,7 @@ def gen_world(rng, cfg, *, nroots=1, hostile=True, links=True, max_files=24, fam
     fams = pick_alphabets(rng, hostile)
     names = Names(rng, fams)
     w = World()
-    roots = ["r%d" % (i + 1) for i in range(nroots)]
+    roots = root_names(rng, nroots)
     if hostile_roots:
         # root names end up as arguments in the report header's command line
         roots = [b2s(rng.choice(HOSTILE_ROOT_NAMES) % (i + 1)) for i in range(nroots)]
@@ -186,7 +198,7 @@ def gen_world(rng, cfg, *, nroots=1, hostile=True, links=True, max_files=24, fam
         w.add_dir(r)
         dirs.append(s2b(r))
         for _ in range(rng.randint(0, 3)):
-            parent = rng.choice([d for d in dirs if d.startswith(s2b(r))])
+            parent = rng.choice([d for d in dirs if d == s2b(r) or d.startswith(s2b(r) + b"/")])
             nm = names.fresh(parent)
             d = parent + b"/" + nm
             w.add_dir(b2s(d))
